@@ -165,7 +165,20 @@ impl Recorder {
             }
         }
         let dual = if self.dual && PINO_NAMES.contains(&ix.name.as_str()) { Some(self.dual_run(w, ix)) } else { None };
-        let pre_bank = if self.sdk && (ix.name == "swap" || ix.name == "swap_v2") { Some(w.bank.clone()) } else { None };
+        const LIQ_QUOTED: [&str; 4] = ["increase_liquidity", "increase_liquidity_v2", "decrease_liquidity", "decrease_liquidity_v2"];
+        let pre_bank = if self.sdk && (ix.name == "swap" || ix.name == "swap_v2" || LIQ_QUOTED.contains(&ix.name.as_str())) { Some(w.bank.clone()) } else { None };
+        // the SDK's liquidity quote of the same liquidity amount on the pre-state
+        let sdk_liq = match (&pre_bank, ix.args.get("pos").and_then(|v| v.as_str())) {
+            (Some(b), Some(pos)) if LIQ_QUOTED.contains(&ix.name.as_str()) && w.positions.contains_key(pos) && w.pos_range(pos).is_some() => {
+                let x = &w.positions[pos];
+                let p = &w.pools[&x.pool];
+                let (_, lo, up) = w.pos_range(pos).unwrap();
+                let num = |v: &Value| -> u128 { v.as_str().map(|s| s.parse().unwrap()).unwrap_or_else(|| v.as_u64().unwrap_or(0) as u128) };
+                let bps = [0u16, 1, 50, 100, 1000, 10000][self.events % 6];
+                crate::sdk::quote_liquidity(b, &p.key, &w.mints[&p.mint_a].key, &w.mints[&p.mint_b].key, lo, up, num(&ix.args["liq"]), ix.name.starts_with("increase"), crate::svm::epoch(), bps)
+            }
+            _ => json!({"present": false}),
+        };
         let ex = w.exec_raw(&inst);
         let dual = dual.map(|(bank_a, ex_a)| {
             // compare the Anchor run (on a copy) with the Pinocchio run (the real one)
@@ -258,7 +271,7 @@ impl Recorder {
             "must": must, "now": nu(w.now as u128), "epoch": nu(crate::svm::epoch() as u128), "tag": tag,
             "logs": if ex.ok() { vec![] } else { ex.logs.iter().rev().take(4).rev().cloned().collect::<Vec<_>>() },
             "swaps": swaps, "events": evs, "diff": d, "prices": prices,
-            "dual": dual.unwrap_or(json!({"present": false})), "routing": routing, "sdk": sdk, "sdkUser": sdk_user,
+            "dual": dual.unwrap_or(json!({"present": false})), "routing": routing, "sdk": sdk, "sdkUser": sdk_user, "sdkLiq": sdk_liq,
         });
         w.last_proj = proj;
         self.write(&ev);
